@@ -1,6 +1,8 @@
 package appsim
 
 import (
+	"sort"
+	"strings"
 	"sync"
 
 	dbm "github.com/lianxiangcloud/linkchain/libs/db"
@@ -14,10 +16,34 @@ type CrashCtl struct {
 	N      int
 	KillAt int
 	Log    []string
+	// Budget, if > 0, bounds the number of reads + writes: one more panics with "op-budget" (runaway-loop guard)
+	Budget int
+	ops    int
+}
+
+func (c *CrashCtl) spend() {
+	if c.Budget == 0 {
+		return
+	}
+	c.mu.Lock()
+	c.ops++
+	over := c.ops > c.Budget
+	c.mu.Unlock()
+	if over {
+		panic("op-budget")
+	}
+}
+
+// ResetBudget starts a new budget period.
+func (c *CrashCtl) ResetBudget(n int) {
+	c.mu.Lock()
+	c.Budget, c.ops = n, 0
+	c.mu.Unlock()
 }
 
 // hit reports whether the write may proceed.
 func (c *CrashCtl) hit(name string) bool {
+	c.spend()
 	c.mu.Lock()
 	defer c.mu.Unlock()
 	c.N++
@@ -34,6 +60,18 @@ func (c *CrashCtl) Dead() bool {
 	return c.KillAt != 0 && c.N >= c.KillAt
 }
 
+// keyClass abbreviates a database key to its record family: the printable prefix up to the first separator, or "bin".
+func keyClass(k []byte) string {
+	n := 0
+	for n < len(k) && n < 12 && ((k[n] >= 'A' && k[n] <= 'Z') || (k[n] >= 'a' && k[n] <= 'z') || k[n] == '_') {
+		n++
+	}
+	if n == 0 {
+		return "bin"
+	}
+	return string(k[:n])
+}
+
 type crashDB struct {
 	dbm.DB
 	name string
@@ -47,35 +85,47 @@ func WrapCrash(name string, db dbm.DB, dir string, ctl *CrashCtl) dbm.DB {
 }
 
 func (d *crashDB) Dir() string { return d.dir }
+func (d *crashDB) Get(k []byte) []byte {
+	d.ctl.spend()
+	return d.DB.Get(k)
+}
+func (d *crashDB) Load(k []byte) ([]byte, error) {
+	d.ctl.spend()
+	return d.DB.Load(k)
+}
+func (d *crashDB) Has(k []byte) bool {
+	d.ctl.spend()
+	return d.DB.Has(k)
+}
 func (d *crashDB) Set(k, v []byte) {
-	if d.ctl.hit(d.name + ".Set") {
+	if d.ctl.hit(d.name + ".Set:" + keyClass(k)) {
 		d.DB.Set(k, v)
 	}
 }
 func (d *crashDB) Put(k, v []byte) error {
-	if d.ctl.hit(d.name + ".Put") {
+	if d.ctl.hit(d.name + ".Put:" + keyClass(k)) {
 		return d.DB.Put(k, v)
 	}
 	return nil
 }
 func (d *crashDB) SetSync(k, v []byte) {
-	if d.ctl.hit(d.name + ".SetSync") {
+	if d.ctl.hit(d.name + ".SetSync:" + keyClass(k)) {
 		d.DB.SetSync(k, v)
 	}
 }
 func (d *crashDB) Delete(k []byte) {
-	if d.ctl.hit(d.name + ".Delete") {
+	if d.ctl.hit(d.name + ".Delete:" + keyClass(k)) {
 		d.DB.Delete(k)
 	}
 }
 func (d *crashDB) Del(k []byte) error {
-	if d.ctl.hit(d.name + ".Del") {
+	if d.ctl.hit(d.name + ".Del:" + keyClass(k)) {
 		return d.DB.Del(k)
 	}
 	return nil
 }
 func (d *crashDB) DeleteSync(k []byte) {
-	if d.ctl.hit(d.name + ".DeleteSync") {
+	if d.ctl.hit(d.name + ".DeleteSync:" + keyClass(k)) {
 		d.DB.DeleteSync(k)
 	}
 }
@@ -83,21 +133,39 @@ func (d *crashDB) NewBatch() dbm.Batch { return &crashBatch{Batch: d.DB.NewBatch
 
 type crashBatch struct {
 	dbm.Batch
-	d *crashDB
+	d   *crashDB
+	cls map[string]bool
+}
+
+func (b *crashBatch) note(k []byte) {
+	if b.cls == nil {
+		b.cls = map[string]bool{}
+	}
+	b.cls[keyClass(k)] = true
+}
+func (b *crashBatch) Set(k, v []byte) { b.note(k); b.Batch.Set(k, v) }
+func (b *crashBatch) Delete(k []byte) { b.note(k); b.Batch.Delete(k) }
+func (b *crashBatch) label() string {
+	var cs []string
+	for c := range b.cls {
+		cs = append(cs, c)
+	}
+	sort.Strings(cs)
+	return b.d.name + ".batch:" + strings.Join(cs, "+")
 }
 
 func (b *crashBatch) Write() {
-	if b.d.ctl.hit(b.d.name + ".batch") {
+	if b.d.ctl.hit(b.label()) {
 		b.Batch.Write()
 	}
 }
 func (b *crashBatch) WriteSync() {
-	if b.d.ctl.hit(b.d.name + ".batch") {
+	if b.d.ctl.hit(b.label()) {
 		b.Batch.WriteSync()
 	}
 }
 func (b *crashBatch) Commit() error {
-	if b.d.ctl.hit(b.d.name + ".batch") {
+	if b.d.ctl.hit(b.label()) {
 		return b.Batch.Commit()
 	}
 	return nil
